@@ -43,10 +43,14 @@ class RuleResult:
                        f'cannot decide {self.rule}: {what} (anchor missing, ambiguous or unsupported construct)')
 
     def floor(self, what, got, minimum):
+        """Vacuity guard. `minimum` is the number of instances counted by hand on the pinned tree. Refactors that merge
+        duplicated code legitimately lower such counts, so the rule only fails closed when fewer than a third of them
+        (at least one) are left: then it no longer looks at the code it was written for."""
         self.analysed[what] = got
-        if got < minimum:
+        threshold = max(1, (minimum + 2) // 3)
+        if got < threshold:
             self.violation(f'floor:{what}', '-',
-                           f'{self.rule}: analysed only {got} {what}, fewer than the {minimum} confirmed by hand; '
+                           f'{self.rule}: analysed only {got} {what}, fewer than a third of the {minimum} confirmed by hand; '
                            f'the rule would pass vacuously')
 
 
